@@ -88,6 +88,36 @@ CHECKS = {
         ref="3/C10",
         technique="deterministic simulation: discrete-event clocks with skew/jump faults behind the time seam, executable reference model as oracle",
     ),
+    "C11": dict(
+        level="fault_enumeration",
+        text=("crash/restart simulation of a key owner: keys (PRNG material incl. rare leading-zero-coordinate EC keys, or "
+              "joserfc-generated) are persisted in all nine export forms, every in-memory object is dropped, the node reloads "
+              "from the stored bytes and must interoperate with its pre-crash self (signatures both ways, ECDH), an RFC-strict "
+              "peer must rebuild the identical key, import-then-export must return the members given; the complete "
+              "single-corruption space of the persisted JWK (delete / retype / undecodable / contradictory use / every CRT "
+              "subset / off-curve / wrong password) must be refused. Exhaustive per sampled key, sampled over keys."),
+        ref="3/C11",
+        technique="deterministic simulation: crash/restart with only durable bytes surviving + storage-fault enumeration on the persisted JWK, strict reference importer as oracle",
+    ),
+    "C12": dict(
+        level="exploration",
+        text=("always-on eavesdropper invariant over a simulated network: every artefact published (public JWK / key set / PEM "
+              "/ DER / thumbprint / kid) or sent (JWS, JWE incl. epk, JWT in every serialisation) for keys whose private "
+              "octets the harness knows (ephemeral keys captured by a recording wrapper) is scanned for private parameter "
+              "names and for the private octets in raw / hex / base64url / base64 form, also inside decodable segments. "
+              "No fault or schedule involved: partial fit, stated."),
+        ref="3/C12",
+        technique="deterministic simulation: eavesdropper invariant (taint scan) over all traffic of seeded worlds",
+    ),
+    "C13": dict(
+        level="exploration",
+        text=("restart / representation invariance of RFC 7638 thumbprints in the C11 storage world: every representation of a "
+              "key (private, public, every persisted form after a crash, reference-written JWKs with permuted / added "
+              "members, sha256/384/512) must give the independent reference value, across seeded histories of ensure_kid / "
+              "KeySet / export calls; kids are never overwritten and stay stable. Partial fit (the digest itself is pure)."),
+        ref="3/C13",
+        technique="deterministic simulation: crash/restart representation invariance + call-history stability against an independent RFC 7638 reference",
+    ),
     "C14": dict(
         level="exploration",
         text=("key distribution as a small distributed system in discrete-event time: an owner's rotating private key set "
